@@ -5,8 +5,52 @@ from ..common import seed
 from ..xh import run_jobs
 
 TECHNIQUE = ("CrossHair/z3 symbolic execution of the real SimpleBatcher / subdivide_batches / generate_batches with "
-             "symbolic sizes, ratios, modes and a solver-chosen permutation stub; partition post-conditions")
+             "symbolic sizes, ratios, modes and a solver-chosen permutation stub; partition post-conditions; term-valued symbolic "
+             "execution of the real error_estimate for the batch-mean == full-batch loss identity (z3, QF_NRA)")
 FILE = "harness/c09_batcher.py"
+
+
+def loss_scaling_claim(n, det, loss_type):
+    """mean over the batches of the per-batch loss == full-batch loss, for every divisor of the pattern count"""
+    import types
+
+    import numpy as np
+
+    import quantem.diffractive_imaging.ptychography_base as pb
+
+    def claim(I):
+        with I.patch_torch(pb):
+            pred = I.tensor("pred", (n,) + det, lo=0, hi=2, nonneg=True)
+            targ = I.tensor("target", (n,) + det, lo=0, hi=2, nonneg=True)
+            mask = I.tensor("mask", det, lo=0, hi=1)
+            mean_int = I.real("mean_intensity", 0.1, 10, positive=True)
+            ns = types.SimpleNamespace(dset=types.SimpleNamespace(targets=targ, detector_mask=mask, num_gpts=n,
+                                                                  mean_diffraction_intensity=mean_int))
+            full, _ = pb.PtychographyBase.error_estimate(ns, pred, np.arange(n), loss_type)
+            rels = []
+            for b in [d for d in range(1, n + 1) if n % d == 0]:
+                tot = 0
+                for start in range(0, n, b):
+                    idx = np.arange(start, start + b)
+                    lb, _ = pb.PtychographyBase.error_estimate(ns, pred[idx], idx, loss_type)
+                    tot = tot + lb
+                rels.append(Rel(f"mean_of_batch_losses_equals_full_loss[b={b}]", tot / (n // b), full, ntol=1e-6))
+            return rels
+    return claim
+
+
+def loss_cases():
+    out = []
+    for n, det in ((4, (1, 2)), (6, (1, 1)), (3, (2, 1))):
+        for lt in ("l2_amplitude", "l1_amplitude", "l2_intensity", "l1_intensity"):
+            out.append((f"loss_scaling[n={n};det={det};{lt}]", loss_scaling_claim(n, det, lt), dict(logic="QF_NRA")))
+    return out
+
+
+from ..sym.claims import Rel, decide_many, register  # noqa: E402
+
+for _n, _c, _ in loss_cases():
+    register("C09", _n, _c)
 
 
 def run(check, tier):
@@ -21,7 +65,8 @@ def run(check, tier):
                        "(contract of Generator.permutation)")
     check.assumptions += ["val_ratio on the rational grid p/20 so that round() is decided exactly",
                           "bit-level determinism of NumPy/torch generators (same seed => same stream) is NumPy's contract, not checked"]
-    check.outside += ["n > 9 for the batcher (engine X realises n at np.arange)", "gradient equality through autograd",
+    check.outside += ["n > 9 for the batcher (engine X realises n at np.arange)", "gradient equality through autograd (follows from the "
+                      "decided loss identity by linearity of differentiation)",
                       "bit-identical loss histories across runs"]
     rnd = random.Random(seed())
     t = 300 if quick else 1800
@@ -35,3 +80,7 @@ def run(check, tier):
                 jobs.append(dict(fn="partition", fixed=dict(n=n, mode=mode, shuffle=shuffle, p_in=sorted(set(ps))),
                                  timeout=t, key=f"partition:n={n}"))
     run_jobs(check, FILE, jobs)
+    # engine S: the loss is a sum of per-pattern terms scaled by num_patterns / batch_size, so the mean of the batch losses
+    # is the full-batch loss for every divisor (gradients follow by linearity of differentiation - stated, not queried)
+    check.add_functions("PtychographyBase.error_estimate")
+    decide_many(check, [(n, c, dict(o, key="loss_scaling")) for n, c, o in loss_cases()], timeout_s=120, validate=1, hard_timeout_s=400)
